@@ -76,6 +76,22 @@ compared for these formats too.  In the signature of a divergence that needs suc
 field read before it are named by kind: <format>:idx>get>write=>observe:<divergence> is ONE class per format and
 kind of divergence (state memoised by a read, stale after the write), whatever field / selection shows it.
 
+Typed VCF INFO of selected / reordered rows (run_info).  VCF files whose header declares typed INFO keys (Integer,
+Float, Flag, String) of which some records lack some (a Flag, an optional Integer / Float / String, INFO "." with no
+key at all, keys in varying order, a Flag that is declared and never present): 6 files of 6-8 records.  Read whole,
+as one chunk of a chunked read, or as the concatenation of all chunks, lazily and eagerly; then a chain of 1-3 row
+selections - unsorted integer lists (t[[0, 5, 3]], rotations, zig-zag, negative and repeated indices, numpy arrays),
+reversed slices, and slices / masks / sorted lists as file-order controls; every ordered pair of rows, ordered
+triples, seeded permutations and chains of three (thorough) - applied to the table (t[rows].info.K), to the INFO
+table (t.info[rows].K) or to the table after the key was read from the parent; then EVERY declared key of the
+selection is read, the key named "first" first (the first key rotates / is every key, thorough).  Oracle: a
+reference parse of the INFO text this file wrote (split at ';' and '=', int / float / presence / text by declared
+Type) for the file rows that Python list indexing selects: where a record has the key (and for every Flag) both
+modes must give the reference value, where it lacks the key only lazy == eager is required.  Signatures
+vcf-info:<rows-in-file-order|rows-repeated|rows-reordered>:<Type of the wrong keys|several-types|read-or-select>:
+<eager-wrong|lazy-wrong|both-wrong|modes-differ-where-key-absent>; the details (key, row, observed, reference) are in
+the message.
+
 Signatures.  A failing program is delta-minimised (ops deleted while the same divergence remains; each remaining op
 named by its most canonical variant that keeps the divergence) and the signature is
     <format>:<minimal program shape>[:chunked-only]=><place>:<divergence>
@@ -1937,6 +1953,425 @@ def run_decision(col, r, tier):
     return info
 
 
+# ----------------------------------------------------------------------------------------------------------------
+# typed VCF INFO values of selected / reordered rows (run_info)
+# ----------------------------------------------------------------------------------------------------------------
+# A VCF whose header declares typed INFO keys (##INFO=<ID=..,Number=..,Type=Integer|Float|Flag|String>) is read with
+# INFO as a table of typed columns (t.info.DP, t.info.AF, t.info.DB ...).  The records need not carry every declared
+# key: a Flag is present or not, any other key may be missing, the whole INFO column may be "." (VCF specification,
+# section 1.6.1 #8).  The typed columns are sliced out of the INFO text of the rows the table holds NOW, so after a
+# row selection that reorders rows (unsorted integer lists, reversed slices, chains of selections) the first access
+# of info.<key> must still give the value of each selected row - in both read modes.
+# Histories: read (whole / one chunk of a chunked read / the concatenation of all chunks; lazy and eager) ; a chain
+# of 1-3 row selections of the table (where = table), of the INFO table itself (t.info[rows], where = info), or of
+# the table after the INFO key was read from the unselected parent (where = table-pre) ; then every declared key
+# of the selection's INFO, the key named "first" first (each key is the first one read in some case).
+# Oracle: an independent reference from the specification - the INFO text this file wrote, split at ';' and '=',
+# int() / float() / presence / text per declared Type, for the file rows that Python list indexing selects.  Where a
+# record has the key (and for every Flag) BOTH modes must give the reference value; where the key is missing the
+# specification gives no value, so only lazy == eager is required there (the statement of the property).
+# Signatures (none of them is shared with the lock-step programs above):
+#     vcf-info:<rows>:<types>:<verdict>
+# rows = rows-in-file-order | rows-repeated (non-decreasing, some row twice) | rows-reordered; types = the Type of the
+# keys that are wrong in this case (Integer | Float | Flag | String) or several-types; verdict = eager-wrong |
+# lazy-wrong | both-wrong (value other than the reference, other number of rows, or the access raises) |
+# modes-differ-where-key-absent; <types> = read-or-select when reading / selecting itself fails.
+
+INFO_TYPES = {"DP": "Integer", "AF": "Float", "DB": "Flag", "AA": "String", "MQ": "Integer", "FS": "Float", "H2": "Flag",
+              "GN": "String"}
+INFO_FILES = {   # name -> (declared keys in header order, INFO column of the records); floats exactly representable
+    # the three valued keys in every record, the Flag in some (first record with it, last one without)
+    "flag": (("DP", "AF", "DB", "AA"),
+             ["DP=10;AF=0.5;DB;AA=T", "DP=7;AF=0.25;AA=G", "DP=123;AF=1.0;DB;AA=C", "DP=1;AF=0.125;AA=A",
+              "DP=2000;AF=0.75;DB;AA=T", "DP=55;AF=2.5;AA=GG"]),
+    # first record without the Flag, last one with it; the Flag in the middle of the record / at its end
+    "flag2": (("DP", "DB", "AF", "AA"),
+              ["DP=3;AF=0.5;AA=TT", "DB;DP=41;AF=0.25;AA=G", "DP=1234;DB;AF=8.0;AA=C", "DP=9;AF=0.125;AA=A",
+               "DP=20;AF=0.75;AA=T", "DP=555;AF=2.5;AA=GGA;DB"]),
+    # an optional Integer (last key / first key of the record), a Flag that is declared and never present
+    "optint": (("DP", "AF", "DB", "AA", "MQ"),
+               ["DP=10;AF=0.5;AA=T", "DP=7;AF=0.25;AA=G;MQ=3", "DP=123;AF=1.0;AA=C", "MQ=60;DP=1;AF=0.125;AA=A",
+                "DP=2000;AF=0.75;AA=T", "DP=55;AF=2.5;AA=GG;MQ=7", "DP=8;AF=4.0;AA=ACG"]),
+    # every combination of three optional keys (Integer, Flag, String): record i has key k iff bit k of i is set
+    "combos": (("DP", "MQ", "DB", "AA"),
+               [";".join(["DP=%d" % (3 ** i)] + [x for k, x in enumerate(("MQ=%d" % (7 * i + 1), "DB", "AA=" + "ACGT"[:1 + i % 4]))
+                                                 if i >> k & 1]) for i in range(8)]),
+    # every key missing somewhere, a record without INFO ("."), records of one Flag only, keys in varying order
+    "sparse": (("DP", "AF", "DB", "AA", "MQ", "FS", "H2", "GN"),
+               ["DP=10;AF=0.5;DB;AA=T", "MQ=3;DP=7;AA=G;GN=abc", ".", "H2", "DP=2000;AF=0.75;DB;AA=T;FS=1.5;H2",
+                "GN=x;AF=2.5;MQ=7", "DB", "AA=ACGT;FS=-0.25"]),
+    # optional Float and String; the last record ends with a two-letter Flag, the first one is a Flag only
+    "optfloat": (("H2", "FS", "GN", "DP"),
+                 ["H2", "FS=0.5;DP=1", "GN=gene1;DP=22", "FS=-1.25;GN=g;DP=333;H2", "DP=4444", "GN=longer_name;FS=16.0",
+                  "DP=5;H2"]),
+}
+
+
+def _info_header(keys):
+    out = b"##fileformat=VCFv4.2\n"
+    for k in keys:
+        tp = INFO_TYPES[k]
+        out += ('##INFO=<ID=%s,Number=%s,Type=%s,Description="%s of the site">\n' % (k, "0" if tp == "Flag" else "1", tp, k)).encode()
+    return out + VCF_COLUMNS
+
+
+def info_file_bytes(name):
+    keys, infos = INFO_FILES[name]
+    rows = [("chr%d" % (1 + i // 3), 1000 * (i + 1) + i, "rs%d" % (7 ** i % 1000), "ACGT"[i % 4], ("GA", "CAA", "TC")[i % 3],
+             ".", ("PASS", ".", "q10")[i % 3], s) for i, s in enumerate(infos)]
+    return _info_header(keys) + _tsv(rows)
+
+
+def info_reference(text):
+    """one INFO column value -> {key: text value | True}, from the specification: ';'-separated key[=value], '.' = none"""
+    out = {}
+    if text != ".":
+        for item in text.split(";"):
+            k, eq, v = item.partition("=")
+            out[k] = v if eq else True
+    return out
+
+
+def info_expected(key, rec):
+    """-> (the specification gives a value, that value as norm_column shows it)"""
+    tp = INFO_TYPES[key]
+    if tp == "Flag":
+        return True, key in rec
+    if key not in rec:
+        return False, None
+    return True, {"Integer": int, "Float": lambda x: repr(float(x)), "String": str}[tp](rec[key])
+
+
+def info_selection(name, n):
+    """a named row selection for a table of n rows -> JSON spec [kind, value], None if not applicable; the
+    selections never give an empty table (the empty table is a region of its own in the programs above)"""
+    import random
+    half = n // 2
+    if n < 2:
+        return None
+    p = name.split(":")
+    if p[0] == "pick":                    # explicit rows
+        rows = [int(x) for x in p[1:]]
+        return ["list", rows] if max(rows) < n else None
+    if p[0] == "perm":                    # a seeded permutation of all rows
+        rows = list(range(n))
+        random.Random("C05-info-perm-%s" % p[1]).shuffle(rows)
+        return ["list", rows]
+    table = {
+        "rev": ["slice", [None, None, -1]],
+        "rev2": ["slice", [None, None, -2]],
+        "rev_mid": ["slice", [n - 2, 0, -1]] if n >= 3 else None,
+        "rev_neg": ["slice", [-1, -4, -1]],
+        "tail": ["slice", [1, None, None]],
+        "step": ["slice", [None, None, 2]],
+        "mask_alt": ["mask", [i % 2 == 0 for i in range(n)]],
+        "mask_nofirst": ["mask", [i != 0 for i in range(n)]],
+        "l_sorted": ["list", sorted(set([0, half, n - 1]))],
+        "l_dup_sorted": ["list", [0, 0, half, n - 1, n - 1]],
+        "l_053": ["list", [0, n - 1, half]] if n >= 3 else None,      # 6 rows: t[[0, 5, 3]]
+        "l_last_first": ["list", [n - 1, 0]],
+        "l_swap01": ["list", [1, 0]],
+        "l_rot": ["list", list(range(half, n)) + list(range(half))],
+        "l_zig": ["list", [(i // 2) if i % 2 == 0 else n - 1 - i // 2 for i in range(n)]],
+        "l_rev": ["list", list(range(n - 1, -1, -1))],
+        "l_neg": ["list", [-1, 0, -2]],
+        "l_dup": ["list", [0, 0, n - 1, 1, 1]],
+        "a_053": ["array", [0, n - 1, half]] if n >= 3 else None,
+        "a_rev": ["array", list(range(n - 1, -1, -1))],
+        "a_neg": ["array", [-2, -1, 0]],
+    }
+    return table[name]
+
+
+INFO_CONTROLS = ("tail", "step", "mask_alt", "mask_nofirst", "l_sorted", "l_dup_sorted")            # file order kept
+INFO_REORDER = ("l_053", "rev", "l_last_first", "l_rot", "a_053", "rev2", "l_zig", "l_neg", "l_dup", "rev_mid",
+                "l_swap01", "l_rev", "rev_neg", "a_rev", "a_neg")
+INFO_CHAIN = ("rev", "l_053", "step", "mask_nofirst", "l_rot", "tail")     # the links of the chains of selections
+
+
+def sel_object(spec):
+    import numpy as np
+    kind, v = spec
+    if kind == "slice":
+        return slice(*v)
+    if kind == "list":
+        return list(v)
+    if kind == "array":
+        return np.array(v, dtype=int)
+    return np.array(v, dtype=bool)
+
+
+def sel_reference(spec, rows):
+    """the same selection on a plain Python list of file row numbers"""
+    kind, v = spec
+    if kind == "slice":
+        return rows[slice(*v)]
+    if kind == "mask":
+        return [r for r, m in zip(rows, v) if m]
+    return [rows[i] for i in v]
+
+
+def rows_class(rows):
+    if all(a < b for a, b in zip(rows, rows[1:])):
+        return "rows-in-file-order"
+    if all(a <= b for a, b in zip(rows, rows[1:])):
+        return "rows-repeated"
+    return "rows-reordered"
+
+
+def info_path(tmp, name):
+    p = os.path.join(tmp, "info_%s.vcf" % name)
+    if not os.path.exists(p):
+        with open(p, "wb") as f:
+            f.write(info_file_bytes(name))
+    return p
+
+
+def info_chunk_size(name):
+    keys, infos = INFO_FILES[name]
+    return max((len(info_file_bytes(name)) - len(_info_header(keys))) // 3, 8)
+
+
+def _info_observe(path, lazy, case):
+    """the history of one case in one read mode -> {"rows": file rows the reference selects, "sels": the concrete
+    selections, "pre": outcome of the key read from the parent | None, "cols": [(key, outcome)]}"""
+    import numpy as np
+    import bionumpy as bnp
+    keys, infos = INFO_FILES[case["file"]]
+    mode = case["mode"]
+    if mode == "whole":
+        with bnp.open(path, lazy=(None if lazy else False)) as f:   # the lazy side of the whole read is the default
+            t = f.read()
+        rows = list(range(len(infos)))
+    else:
+        with bnp.open(path, lazy=lazy) as f:
+            chunks = list(f.read_chunks(min_chunk_size=info_chunk_size(case["file"])))
+        lens = [len(c) for c in chunks]
+        if sum(lens) != len(infos) or len(chunks) < 2:
+            raise ValueError("chunks of %r rows for a file of %d records" % (lens, len(infos)))
+        if mode == "cat":
+            t, rows = np.concatenate(chunks), list(range(len(infos)))
+        else:
+            k = 0 if mode == "chunk:first" else len(chunks) - 1
+            t, rows = chunks[k], list(range(sum(lens[:k]), sum(lens[:k + 1])))
+    first = case["first"]
+    order = list(keys[keys.index(first):]) + list(keys[:keys.index(first)])
+    out = {"pre": None, "pre_rows": list(rows), "sels": []}
+    where = case["where"]
+    if where == "table-pre":
+        out["pre"] = _outcome(lambda: norm_column(getattr(t.info, first)))
+    cur = t.info if where == "info" else t
+    for name in case["chain"]:
+        spec = info_selection(name, len(rows))
+        if spec is None or not sel_reference(spec, rows):
+            raise Skip()
+        out["sels"].append(spec)
+        rows = sel_reference(spec, rows)
+        cur = cur[sel_object(spec)]
+    info = cur if where == "info" else cur.info
+    out["rows"] = rows
+    out["cols"] = [(k, _outcome(lambda: norm_column(getattr(info, k)))) for k in order]
+    return out
+
+
+def _info_wrong(key, outcome, rows, recs):
+    """None if the column agrees with the reference on every row where the specification gives a value, else what
+    is wrong"""
+    if outcome[0] == "exc":
+        return "raises %s(%s)" % (outcome[1], outcome[2])
+    col = outcome[1]
+    if not isinstance(col, list) or len(col) != len(rows):
+        return "%r: not one value per selected row (%d rows)" % (_short(col), len(rows))
+    exp = [info_expected(key, recs[r]) for r in rows]
+    bad = [j for j, (has, v) in enumerate(exp) if has and col[j] != v]
+    if bad:
+        j = bad[0]
+        return "row %d of the selection (file row %d, INFO %r): %r, reference %r; column %r" % (
+            j, rows[j], info_text(recs[rows[j]]), col[j], exp[j][1], _short(col))
+    return None
+
+
+def info_text(rec):
+    return ";".join(k if v is True else "%s=%s" % (k, v) for k, v in rec.items()) or "."
+
+
+def info_eval(tmp, case):
+    """-> None (the case is not applicable) | [(signature, message)] - empty: the contract holds"""
+    keys, infos = INFO_FILES[case["file"]]
+    recs = [info_reference(s) for s in infos]
+    path = info_path(tmp, case["file"])
+    obs = {}
+    for m, lazy in (("eager", False), ("lazy", True)):
+        try:
+            obs[m] = ("ok", _info_observe(path, lazy, case))
+        except Skip:
+            return None
+        except Exception as e:
+            obs[m] = ("exc", type(e).__name__, str(e)[:200])
+    fails = []
+    okm = [m for m in ("eager", "lazy") if obs[m][0] == "ok"]
+    rows = obs[okm[0]][1]["rows"] if okm else []
+    cls = rows_class(rows) if okm else ("rows-reordered" if any(n not in INFO_CONTROLS for n in case["chain"])
+                                        else "rows-in-file-order")
+    if len(okm) < 2:
+        verdict = "both-wrong" if not okm else ("eager-wrong" if "lazy" in okm else "lazy-wrong")
+        fails.append(("vcf-info:%s:read-or-select:%s" % (cls, verdict),
+                      "; ".join("%s: %s" % (m, "ok" if obs[m][0] == "ok" else "%s(%s)" % obs[m][1:]) for m in obs)))
+        if not okm:
+            return fails
+    wrong = {m: {} for m in okm}
+    for m in okm:
+        o = obs[m][1]
+        if o["pre"] is not None:
+            w = _info_wrong(case["first"], o["pre"], o["pre_rows"], recs)
+            if w:
+                wrong[m][case["first"]] = "read from the parent before the selection: " + w
+        for k, outcome in o["cols"]:
+            w = _info_wrong(k, outcome, o["rows"], recs)
+            if w and k not in wrong[m]:
+                wrong[m][k] = w
+    absent = {}
+    if len(okm) == 2 and obs["eager"][1]["rows"] == obs["lazy"][1]["rows"]:
+        for (k, eo), (_, lo) in zip(obs["eager"][1]["cols"], obs["lazy"][1]["cols"]):
+            if k not in wrong["eager"] and k not in wrong["lazy"] and eo[1] != lo[1]:
+                absent[k] = "lazy %r != eager %r" % (_short(lo[1]), _short(eo[1]))
+    # region of its own: the selection is ONE record whose INFO has no key=value item (a Flag only, or "."), so the
+    # INFO text of the whole table is shorter than "<key>=" - one signature per verdict whatever the selection / key
+    region = None
+    if len(rows) == 1 and not any(v is not True for v in recs[rows[0]].values()):
+        region = "single-record-without-valued-key"
+    e, l = wrong.get("eager", {}), wrong.get("lazy", {})
+    groups = (("eager-wrong", {k: v for k, v in e.items() if k not in l}),
+              ("lazy-wrong", {k: v for k, v in l.items() if k not in e}),
+              ("both-wrong", {k: "eager: %s | lazy: %s" % (e[k], l[k]) for k in e if k in l}),
+              ("modes-differ-where-key-absent", absent))
+    sels = obs[okm[0]][1]["sels"]
+    for verdict, g in groups:
+        if g:
+            types = sorted(set(INFO_TYPES[k] for k in g))
+            sig = "vcf-info:%s:%s:%s" % (cls, types[0] if len(types) == 1 else "several-types", verdict)
+            if region:
+                sig = "vcf-info:%s:%s" % (region, verdict)
+            fails.append((sig,
+                          "selections %s -> file rows %s; %s" % (json_short(sels), rows, "; ".join(
+                              "info.%s %s" % (k, g[k]) for k in keys if k in g))))
+    return fails
+
+
+def json_short(x):
+    import json
+    return json.dumps(x, separators=(",", ":"))
+
+
+def plan_info(tier):
+    """-> (cases in order of priority, seconds); case = {family, file, mode, where, chain, first}"""
+    files = list(INFO_FILES)
+    out, seen = [], set()
+
+    def add(file, mode, where, chain, first):
+        keys = INFO_FILES[file][0]
+        for f in (keys if first == "every" else [keys[first % len(keys)]]):
+            c = {"family": "vcf-info", "file": file, "mode": mode, "where": where, "chain": list(chain), "first": f}
+            key = json_short(c)
+            if key not in seen:
+                seen.add(key)
+                out.append(c)
+
+    single = INFO_REORDER + INFO_CONTROLS
+    pairs = [(a, b) for a in INFO_CHAIN for b in INFO_CHAIN if a != b or a in ("rev", "l_053", "l_rot")]
+    if tier == "quick":
+        for i, f in enumerate(files):
+            for j, s in enumerate(INFO_REORDER + (INFO_CONTROLS if i % 2 == 0 else ())):
+                add(f, "whole", "table", [s], i + j)   # the key read first rotates: every key is the first one somewhere
+            add(f, "whole", "table", [], i)
+        for i, f in enumerate(("sparse", "flag")):
+            for j, s in enumerate(INFO_REORDER[:4]):
+                add(f, "whole", "info", [s], i + j + 1)
+                add(f, "whole", "table-pre", [s], i + j + 2)
+        for i, f in enumerate(("sparse", "combos")):
+            for m in ("chunk:first", "chunk:last", "cat"):
+                for j, s in enumerate(("rev", "l_053", "step")):
+                    add(f, m, "table", [s], i + j)
+        for j, ch in enumerate(pairs):
+            add("sparse", "whole", "table", ch, j)
+        for i, f in enumerate(("sparse", "optfloat")):   # every single row (a record of one Flag / "." alone in the table)
+            for a in range(len(INFO_FILES[f][1])):
+                add(f, "whole", "table", ["pick:%d" % a], i + a)
+        return out, 20     # the plan takes about 8 s
+    every = ("flag", "optint", "sparse", "optfloat")     # every declared key is the one read first
+    triple = ("rev", "l_053", "mask_nofirst", "l_rot")
+    for i, f in enumerate(files):
+        for j, s in enumerate(INFO_REORDER):
+            add(f, "whole", "table", [s], "every" if f in every else i + j)
+        for j, s in enumerate(INFO_CONTROLS):
+            add(f, "whole", "table", [s], i + j)
+        add(f, "whole", "table", [], "every")
+    for i, f in enumerate(files):
+        n = len(INFO_FILES[f][1])
+        for j, s in enumerate(INFO_REORDER[:8]):
+            add(f, "whole", "info", [s], i + j + 1)
+            add(f, "whole", "table-pre", [s], i + j + 2)
+            for m in ("chunk:first", "chunk:last", "cat"):
+                add(f, m, "table", [s], i + j)
+        for a in range(n):                       # every single row
+            add(f, "whole", "table", ["pick:%d" % a], i + a)
+        for j in range(4):
+            add(f, "whole", "table", ["perm:%d" % j], i + j)
+    for i, f in enumerate(("flag", "optint", "sparse")):
+        n = len(INFO_FILES[f][1])
+        for j, ch in enumerate(pairs):
+            add(f, "whole", "table", ch, i + j)
+        for a in range(n):                       # every ordered pair of rows
+            for b in range(n):
+                if a != b:
+                    add(f, "whole", "table", ["pick:%d:%d" % (a, b)], a + b)
+    for j, tr in enumerate(itertools.permutations(range(len(INFO_FILES["flag"][1])), 3)):
+        add("flag", "whole", "table", ["pick:%d:%d:%d" % tr], j)      # every ordered triple of distinct rows
+    for j, ch in enumerate(itertools.product(triple, repeat=3)):
+        add("sparse", "whole", "table", ch, j)
+    for j, ch in enumerate(pairs):
+        add("sparse", "cat", "table", ch, j)
+        add("sparse", "whole", "info", ch, j + 1)
+    for a in range(len(INFO_FILES["sparse"][1])):
+        add("sparse", "whole", "info", ["pick:%d" % a], a + 1)
+    return out, 90         # the plan takes about 55 s
+
+
+def run_info(col, tmp, tier):
+    cases, seconds = plan_info(tier)
+    info = {"files": {f: {"keys": list(v[0]), "records": len(v[1])} for f, v in INFO_FILES.items()}, "seconds": seconds,
+            "selections": {"reordering": list(INFO_REORDER), "file_order": list(INFO_CONTROLS), "chain_links": list(INFO_CHAIN),
+                           "quick": "one key read first per case (rotating); every single row of 2 files; chains of 2 links (1 file)",
+                           "thorough": "every key read first (4 files); every single row; every ordered pair of rows (3 "
+                                       "files), every ordered triple (1 file), 4 seeded permutations per file, chains of "
+                                       "2 links (3 files) and of 3 links (1 file)"},
+            "modes": ["whole", "chunk:first", "chunk:last", "cat (concatenation of all chunks)"],
+            "where": ["table (t[rows].info.K)", "info (t.info[rows].K)", "table-pre (t.info.K read before t[rows])"],
+            "planned": len(cases), "evaluated": 0, "skipped": 0, "cut": 0}
+    t0 = time.time()
+    for i, case in enumerate(cases):
+        if time.time() - t0 > seconds:
+            info["cut"] = len(cases) - i
+            col.exhaustive = False
+            break
+        try:
+            fails = info_eval(tmp, case)
+        except Exception as e:   # harness problem: a failure of its own class, never silently
+            import traceback
+            col.case(case, contract="vcf-info")
+            col.fail("vcf-info:harness-exception:%s" % type(e).__name__, case, traceback.format_exc()[-500:])
+            continue
+        if fails is None:
+            info["skipped"] += 1
+            continue
+        col.case(case, nontrivial=bool(case["chain"]), contract="vcf-info:%s:%s" % (case["mode"].split(":")[0], case["where"]))
+        info["evaluated"] += 1
+        for sig, msg in fails:
+            col.fail(sig, case, msg)
+    info["wall_s"] = round(time.time() - t0, 1)
+    return info
+
+
 def run(tier="quick", seed=0):
     col = Collector(PID, tier, seed,
                     "every program (sequence of public ops: len, get f, t[slice|mask|int list], t[i], concatenate tu/ut/tt/tut, "
@@ -1956,6 +2391,11 @@ def run(tier="quick", seed=0):
                     "gff3, gtf, multi-line fasta): the same program families, default / lazy=True read against the "
                     "lazy=False read.  Read/write/read: s = t[rows]; get A; write (the program goes on if the write "
                     "diverges); get B of s / of t - per field A with the full observation, per ordered pair (A, B).  "
+                    "Typed VCF INFO: files whose header declares Integer / Float / Flag / String keys that some "
+                    "records lack; read (whole, a chunk, the concatenated chunks) lazily and eagerly; chains of 1-3 row "
+                    "selections (unsorted integer lists, reversed slices, masks) of the table / of t.info; every "
+                    "declared key of the selection read, each key first in some case; both modes against a reference "
+                    "parse of the INFO text this file wrote.  "
                     "distinct = distinct (format, read mode, "
                     "program); non-trivial = program of length >= 1",
                     budget_s=(66 if tier == "quick" else 585))
@@ -2015,12 +2455,19 @@ def run(tier="quick", seed=0):
         # programs of the parts above are what they were)
         bounds["decision_formats"] = run_decision(col, r, tier)
         bounds["read_write_read"] = run_rwr(col, r, tier)
+        bounds["vcf_info"] = run_info(col, tmp, tier)
         bounds["outcomes"] = dict(r.stats)
     col.bounds = bounds
     return col.result()
 
 
 def replay(case):
+    if case.get("family") == "vcf-info":
+        with TmpDir() as tmp:
+            fails = info_eval(tmp, case)
+        if fails:
+            return False, "; ".join("%s: %s" % f for f in fails)
+        return True, "ok" if fails is not None else "ok (not applicable)"
     with TmpDir() as tmp:
         env = Env(tmp, case["fmt"], case["mode"])
         status, divs = run_program(env, [list(o) for o in case["prog"]])
